@@ -1974,10 +1974,13 @@ UNITS = {
                           "skip": []}]},
     # the generic integration's adapters (what the Decoder calls back): the Adapter base class of decode.py and its five
     # subclasses as one family; the terms of generic_sink.py as the dynamic values
-    "generic_parse": {"src": "pyjelly/integrations/generic/parse.py", "ctx": True, "uses": ["lookup_dec", "options", "decode"],
+    "generic_sink": {"src": "pyjelly/integrations/generic/generic_sink.py", "ctx": True, "uses": [], "gen": "GenericSinkGen",
+                     "items": [{"dyn": "obj", "src": "pyjelly/integrations/generic/generic_sink.py",
+                                "classes": ["IRI", "BlankNode", "Literal", "Triple", "Quad", "Prefix"], "singletons": {"DefaultGraph": "_DefaultGraph"}}]},
+    "generic_parse": {"src": "pyjelly/integrations/generic/parse.py", "ctx": True, "uses": ["lookup_dec", "options", "decode", "generic_sink"],
                       "uses_only": {"decode": ["ParserOptions"], "lookup_dec": []}, "gen": "GenericParseGen",
                       "items": [
-                          {"dyn": "obj", "src": "pyjelly/integrations/generic/generic_sink.py",
+                          {"dyn": "obj", "imported": True, "src": "pyjelly/integrations/generic/generic_sink.py",
                            "classes": ["IRI", "BlankNode", "Literal", "Triple", "Quad", "Prefix"], "singletons": {"DefaultGraph": "_DefaultGraph"}},
                           {"function": "_adapter_missing", "src": "pyjelly/parse/decode.py"},
                           {"family": "Adapter", "extra_src": ["pyjelly/parse/decode.py"], "anchor": "GenericStatementSinkAdapter",
@@ -1987,10 +1990,10 @@ UNITS = {
                            # (the source annotates the decoded IRI handed to namespace_declaration as `str` in the base class)
                            "param_types": {"namespace_declaration.iri": "Any"}}]},
     # the generic integration's term encoder: the two methods TermEncoder leaves to its subclasses, over the generic terms
-    "generic_serialize": {"src": "pyjelly/integrations/generic/serialize.py", "ctx": True, "uses": ["lookup_enc", "options", "encode"],
+    "generic_serialize": {"src": "pyjelly/integrations/generic/serialize.py", "ctx": True, "uses": ["lookup_enc", "options", "encode", "generic_sink"],
                           "gen": "GenericSerializeGen",
                           "items": [
-                              {"dyn": "obj", "src": "pyjelly/integrations/generic/generic_sink.py",
+                              {"dyn": "obj", "imported": True, "src": "pyjelly/integrations/generic/generic_sink.py",
                                "classes": ["IRI", "BlankNode", "Literal", "Triple", "Quad", "Prefix"], "singletons": {"DefaultGraph": "_DefaultGraph"}},
                               {"extend": "TermEncoder", "subclass": "GenericSinkTermEncoder", "base_src": "pyjelly/serialize/encode.py",
                                "methods": ["encode_spo", "encode_graph"], "inline": ["get_iri_field", "get_literal_field", "get_triple_field"],
@@ -2070,6 +2073,8 @@ def ctx_analysis(out: list[str], imported: dict[str, list[str]], any_ctx: bool, 
         if m.group(1) == "Inductive" and d:
             for c in re.findall(r"^\| (\w+)", item, flags=re.M):  # constructors
                 deps[c] = d
+                if dyn and d == {"S"}:
+                    implicit.append(c)  # O_IRI {S}: usable in patterns where the type is imported
         if not d:
             continue
         deps[m.group(2)] = d
@@ -2165,8 +2170,14 @@ def run_unit(repo: Path, unit: str) -> tuple["Translator", set[str], list[str]]:
     for spec in dyn_specs:
         import dyn
         tr.out.append(f"(* ---- dynamic values ({spec['src']}): {', '.join(spec['classes'])}; {', '.join(spec.get('singletons', {}))} *)")
-        dyn.add_dyn(tr, repo, spec)
-        tr.dyn_count = len(tr.out)
+        if spec.get("imported"):
+            n0 = len(tr.out)
+            dyn.add_dyn(tr, repo, spec)  # fills the tables; the definitions are those of the unit imported from
+            del tr.out[n0 - 1:]
+            tr.abbrev_s.append("Notation T := obj.")
+        else:
+            dyn.add_dyn(tr, repo, spec)
+            tr.dyn_count = len(tr.out)
     for spec in ext_funcs:  # a function of another module that the unit's classes call
         fn = next((n for n in ast.parse((repo / spec["src"]).read_text()).body if isinstance(n, ast.FunctionDef) and n.name == spec["function"]), None)
         if fn is None:
